@@ -77,7 +77,7 @@ def invoke_spec_full : Prop :=
     ∃ w, build sig (cfg.script sig) = .ok w ∧
       ∀ (recv : Val) (xs : List Val), (w.invoke eqv (encodeCall sig recv xs)).map Prod.fst = specOut eqv sig cfg xs
 
-theorem wf_of_full (sig : Sig) (cfg : Config) (h : WFfull sig cfg) (hk : firstWhenHasArgs cfg = true) : cfg.WF sig := by
+private theorem wf_of_full (sig : Sig) (cfg : Config) (h : WFfull sig cfg) (hk : firstWhenHasArgs cfg = true) : cfg.WF sig := by
   refine ⟨h.conds_wf, h.dflt_out, h.nonempty, ?_⟩
   intro hd specs r rest hc
   refine ⟨?_, h.first_len hd specs r rest hc⟩
@@ -115,7 +115,7 @@ theorem eval_spec (eqv : Val → Val → Bool) (sig : Sig) (cfg : Config) (h : W
 
 /-! ## The clauses of the property, declaratively -/
 
-theorem find_none (eqv : Val → Val → Bool) (cfg : Config) (xs : List Val) (hnone : ∀ p ∈ cfg.conds, ¬ Holds eqv p.1 xs) :
+private theorem find_none (eqv : Val → Val → Bool) (cfg : Config) (xs : List Val) (hnone : ∀ p ∈ cfg.conds, ¬ Holds eqv p.1 xs) :
     cfg.conds.find? (fun p => p.1.holdsB eqv xs) = none := by
   rw [List.find?_eq_none]
   intro p hp hh
@@ -210,6 +210,18 @@ theorem variadic_call_shape (sig : Sig) (hv : sig.variadic = true) (hm : sig.isM
     (fixed tail : List Val) (hk : fixed.length = sig.nIn - 1) :
     encodeCall sig recv (fixed ++ tail) = fixed.map Arg.one ++ [Arg.pack tail] := by
   simp [encodeCall, hv, hm, ← hk]
+
+/-- The other ways of writing an `In` alternative register the same matcher as the tuple form: a bare value or
+    expression for a non-variadic function (`In(3, 4)` on `f(int)`), a typed slice standing for the whole argument list
+    of a function whose only parameter is variadic (`In([]T{a, b}, []T{c})` on `f(...T)`). -/
+theorem in_alternative_forms (sig : Sig) (i : Nat) (rest : List Alt) :
+    (sig.variadic = false → ∀ x, resolveIn sig i (Alt.bare x :: rest) = resolveIn sig i (Alt.tuple [x] :: rest)) ∧
+    (sig.variadic = true → sig.nIn = 1 → ∀ vs, resolveIn sig i (Alt.slice vs :: rest) = resolveIn sig i (Alt.tuple (vs.map Spec.val) :: rest)) := by
+  constructor
+  · intro hv x
+    simp [resolveIn, hv]
+  · intro hv h1 vs
+    simp [resolveIn, hv, h1]
 
 /-! ## The hypotheses are satisfiable: a method, variadic behind two fixed parameters, two results -/
 
